@@ -6,7 +6,7 @@
 (***************************************************************************)
 EXTENDS ObsCore, Expr, TraceBase
 
-Rtol(c) == IF c.mode = "num" THEN "1/1000000" ELSE "1/1000000000"
+Rtol(c) == IF c.mode = "num" THEN "1/1000000" ELSE IF c.mode \in {"root", "quad"} THEN "1/10000000" ELSE "1/1000000000"
 
 MaxAbs(seq) == RMaxAbsSeq(seq)
 SubSeqBy(seq, idx) == [k \in DOMAIN idx |-> seq[idx[k]]]
@@ -37,9 +37,9 @@ CheckReal(id, c, e, allops, used, res, stepwise) ==
       exp  == TLCEval(DeriveChains(ops, g))
       dsc  == DeltaScale(ops)
       ag   == SubSeqBy(TLCEval(AGrad(e, vals)), used)
-      atolD == RAdd("1/1000000000000000000000000000000", RMul(RMul(IF c.mode = "num" THEN "1/1000000" ELSE "1/1000000000", MaxAbs(ag)), dsc))
+      atolD == RAdd("1/1000000000000000000000000000000", RMul(RMul(IF c.mode = "num" THEN "1/1000000" ELSE IF c.mode \in {"root", "quad"} THEN "1/10000000" ELSE "1/1000000000", MaxAbs(ag)), dsc))
       ev   == Eval(e, vals)
-      atolV == RMul("1/100000000000", RAdd("1", AVal(e, vals)))
+      atolV == RMul(IF c.mode \in {"root", "quad"} THEN "1/100000000" ELSE "1/100000000000", RAdd("1", AVal(e, vals)))
   IN /\ Verdict(id, "wellformed:" \o WFClause(o), WellFormed(o))
      /\ Verdict(id, "value", RClose(o.value, ev, rtol, atolV))
      /\ Verdict(id, "chains.names", [k \in DOMAIN o.chains |-> o.chains[k].name] = [k \in DOMAIN exp |-> exp[k].name])
@@ -68,18 +68,48 @@ CheckPart(id, c, e, ops, res, tag) ==
        IF used = <<>> THEN Verdict(id, tag \o ".observable-from-nothing", FALSE)
        ELSE CheckReal(id \o "." \o tag, c, e, ops, used, res, TRUE)
 
+\* ---- roots of observable-dependent functions (property C09) ------------------------------------------------
+\* c.f: expression of f(x, d) with leaf 1 = x and leaves 2.. = the entries of d; c.ops: the observables d; c.res: the root.
+\* The root satisfies f(x, d) = 0 at the central values and fluctuates like the inverse function:
+\*    delta x = - sum_i (df/dd_i) / (df/dx) delta d_i        (analytic derivatives by Expr!Grad)
+LinearIn(cs, x0, dvals) ==
+  LET n == Len(cs)
+      terms == [i \in 1..n |-> B("mul", C(cs[i]), [op |-> "var", i |-> i])]
+      off == RSub(x0, RDot(cs, dvals))
+      RECURSIVE Sum(_)
+      Sum(i) == IF i = 0 THEN C(off) ELSE B("add", Sum(i - 1), terms[i])
+  IN Sum(n)
+CheckRootCase(c) ==
+  LET id == c.id IN
+  IF c.res.k # "obs" THEN Verdict(id, "root: result-kind " \o c.res.k, FALSE)
+  ELSE LET x == c.res.o.value
+           dvals == Values(c.ops)
+           vals == <<x>> \o dvals
+           g == Grad(c.f, vals)
+           scale == RAdd("1", AVal(c.f, vals))
+       IN /\ Verdict(id, "root: f(x, d) = 0 at the central values", RClose(Eval(c.f, vals), "0", "0", RMul("1/100000000", scale)))
+          /\ Verdict(id, "root: df/dx away from zero", ~RClose(g[1], "0", "0", RMul("1/1000000", scale)))
+          /\ LET cs == [i \in 1..Len(dvals) |-> RNeg(RDiv(g[i + 1], g[1]))] IN
+             CheckReal(id, [c EXCEPT !.mode = "root"], LinearIn(cs, x, dvals), c.ops, [k \in DOMAIN c.ops |-> k], c.res, TRUE)
+          \* for an explicitly invertible f the root equals the inverse applied directly
+          /\ IF "inv" \in DOMAIN c THEN CheckReal(id \o ".inverse", [c EXCEPT !.mode = "root"], c.inv, c.ops, [k \in DOMAIN c.ops |-> k], c.res, TRUE) ELSE TRUE
+
 CheckDeriveCase(c) ==
   LET id == c.id IN
   CASE c.ev = "expr" ->
          \* a step-by-step evaluation equals the one-step propagation only under the side condition of C01
          IF c.mode = "step" /\ ~SplitIndependent(c.ops) THEN Skip(id, "split-dependent layout")
-         ELSE CheckReal(id, c, c.expr, c.ops, [k \in DOMAIN c.ops |-> k], c.res, c.mode = "step")
+         ELSE CheckReal(id, c, c.expr, c.ops, [k \in DOMAIN c.ops |-> k], c.res, c.mode \in {"step", "quad"})   \* quad states value and fluctuations only
     [] c.ev = "cexpr" ->
          IF ~SameLayout(c.ops) THEN Skip(id, "complex expression over differing layouts")
          ELSE LET ce == Complexify(c.expr) IN
               IF c.res.k # "cobs" THEN Verdict(id, "result-kind:" \o c.res.k, FALSE)
               ELSE /\ CheckPart(id, c, ce.re, c.ops, c.res.re, "re")
                    /\ CheckPart(id, c, ce.im, c.ops, c.res.im, "im")
+    [] c.ev = "root" -> CheckRootCase(c)
+    [] c.ev = "plainnum" ->    \* nothing is an observable: the plain number (scipy's result)
+         /\ Verdict(id, "plain number expected", c.res.k = "num")
+         /\ c.res.k = "num" => Verdict(id, "value", RClose(c.res.v, Eval(c.expr, <<>>), "1/1000000000", "1/1000000000000"))
     [] c.ev = "raises" ->
          Verdict(id, "must-raise", c.res.k = "exc")
     [] OTHER -> Verdict(id, "unknown-event", FALSE)
